@@ -30,6 +30,7 @@ func init() {
 			{Name: "fixed-max", N: core.TierN(100, 4000), Batch: 10, Run: c04Fixed},
 			{Name: "window-commit-with-blocked-getters", N: core.TierN(60, 2400), Batch: 6, Run: c04Getters},
 			{Name: "fixed-trim-then-commit", N: core.TierN(100, 4000), Batch: 25, Run: c04TrimThenCommit},
+			{Name: "sustained-traffic", N: core.TierN(24, 960), Batch: 6, Run: c04Sustained},
 			{Name: "fixed-consumed-prefix", N: core.TierN(60, 2400), Batch: 10, Run: c04FixedPrefix},
 		},
 	})
@@ -564,4 +565,53 @@ func c04TrimThenCommit(c *core.Ctx) {
 	if c.Index < 1 {
 		c.SetHistory(desc)
 	}
+}
+
+// c04Sustained: consumers that keep up while traffic never pauses for a whole cooldown: the buffer must still be
+// reclaimed while the traffic lasts (Size returns to the backlog of the slowest consumer instead of growing without
+// bound). Restated conservatively: after a run lasting >= 300 heartbeats and >= 60 cooldowns, less than half of everything put is still retained.
+func c04Sustained(c *core.Ctx) {
+	// (cooldowns well above the granularity of time.Sleep, so that the gaps really are shorter than the cooldown)
+	cooldown := core.Pick(c.Rng, 4*time.Millisecond, 6*time.Millisecond, 8*time.Millisecond)
+	b := newBuffer(cleanerSpec{}, cooldown, nil)
+	defer b.Close()
+	p := c.NewPerturb(core.PerturbOpts{P: core.Pick(c.Rng, 0, 0.05)})
+	defer p.Stop()
+	k := 1 + c.Rng.IntN(3)
+	conss := make([]bigbuff.Consumer, k)
+	for i := range conss {
+		conss[i], _ = b.NewConsumer()
+	}
+	defer func() {
+		for _, cons := range conss {
+			cons.Rollback()
+		}
+	}()
+	gap := cooldown / time.Duration(3+c.Rng.IntN(3)) // every gap between operations is shorter than the cooldown
+	start := core.Beats()
+	total := 0
+	for rounds := 0; rounds < 60*int(cooldown/gap) || core.Beats()-start < 300; rounds++ {
+		b.Put(context.Background(), total)
+		total++
+		for _, cons := range conss {
+			if _, err := cons.Get(context.Background()); err == nil {
+				cons.Commit()
+			}
+		}
+		time.Sleep(gap)
+		if rounds > 20000 {
+			break
+		}
+	}
+	off, sz, _ := b.VerifSnapshot() // taken while the traffic is still warm (no quiet period has been granted)
+	// every value was read and committed by every consumer within its round, so what is retained is what the cleaner
+	// has not got to yet: about one or two cooldowns' worth of traffic; the run lasted at least 60 cooldowns, so
+	// retaining more than half of everything means reclamation has (almost) stopped while the traffic lasts
+	if total > 40 && sz*2 > total {
+		c.Violate("not-reclaimed-under-traffic", "%d values were put, read and committed by all %d consumers over %d heartbeats (cooldown %s, gaps %s) and %d of them are still retained (offset %d)", total, k, core.Beats()-start, cooldown, gap, sz, off)
+	}
+	c.Op("put", total)
+	c.Count("evicted_during_traffic", off)
+	c.Nontrivial()
+	c.Sig("sustained", cooldown, gap, k)
 }
